@@ -263,7 +263,7 @@ fn cmd_replay_beh(a: &Args) {
 			let mut o = GenOpts::new(seed ^ ((idx as u64) << 20) ^ vi as u64, ver);
 			o.plan = ((idx + vi) % 2) as u8;
 			if beh.hist.iter().any(|e| e.k == "unk") {
-				o.unk_sizes.insert(64, [1u16, 7, 600][(idx + vi) % 3]);
+				o.unk_sizes.insert(64, [1u16, 7, 600, 65535][(idx + vi) % 4]);
 			}
 			let built = gen::build_beh(&db, &beh, &o);
 			let key = fnv(&built.bytes);
